@@ -6,7 +6,10 @@ import (
 	"bytes"
 	"context"
 	"fmt"
+	"runtime"
+	"strings"
 	"testing"
+	"time"
 
 	"github.com/paulmach/osm"
 	"github.com/paulmach/osm/osmpbf"
@@ -28,6 +31,10 @@ type Case struct {
 	// Prefix bytes placed before the file in the reader's underlying buffer:
 	// offsets are relative to where the reader started.
 	ResumeProcs int
+	// ResumeHeader: 0 the resumed scanners never call Header; 1 they call it
+	// before the first Scan; 2 after the first object (a resumed stream has no
+	// header block; asking for it must not disturb the scan).
+	ResumeHeader int
 }
 
 func skipped(c *Case, o osm.Object) bool {
@@ -48,7 +55,42 @@ func newScanner(c *Case, data []byte, procs int) *osmpbf.Scanner {
 	return s
 }
 
+// check runs the case under a watchdog: a scanner that never returns is a
+// violation (elements are lost), not a harness timeout.
 func check(c Case) error {
+	done := make(chan error, 1)
+	go func() {
+		defer func() {
+			if r := recover(); r != nil {
+				done <- harness.Failf("C09/panic", "panic: %v", r)
+			}
+		}()
+		done <- run(c)
+	}()
+	select {
+	case err := <-done:
+		return err
+	case <-time.After(30 * time.Second):
+		buf := make([]byte, 1<<20)
+		n := runtime.Stack(buf, true)
+		var blocked []string
+		for _, g := range strings.Split(string(buf[:n]), "\n\n") {
+			if strings.Contains(g, "github.com/paulmach/osm/osmpbf.") {
+				blocked = append(blocked, g)
+			}
+		}
+		if len(blocked) == 0 {
+			panic("harness: C09 case exceeded 30s without any osmpbf goroutine")
+		}
+		d := strings.Join(blocked, "\n\n")
+		if len(d) > 4000 {
+			d = d[:4000]
+		}
+		return harness.Failf("C09/hang", "scan or resumed scan did not finish within 30s (procs=%d, resume procs=%d, %d blocks); goroutines in osmpbf frames:\n%s", c.Procs, c.ResumeProcs, len(c.File.Blocks), d)
+	}
+}
+
+func run(c Case) error {
 	enc := c.File.Encode()
 	all, blockOfAll := c.File.Expected()
 	var want []osm.Object
@@ -112,8 +154,14 @@ func check(c Case) error {
 		var rest []osm.Object
 		k := firstOfBlock(b)
 		j := k
+		if c.ResumeHeader == 1 {
+			r.Header()
+		}
 		for r.Scan() {
 			rest = append(rest, r.Object())
+			if c.ResumeHeader == 2 && len(rest) == 1 {
+				r.Header()
+			}
 			if j < len(want) {
 				if f := r.FullyScannedBytes() + off(b); f != off(blockOf[j]) {
 					r.Close()
@@ -182,12 +230,13 @@ func classify(c Case) (bool, []string) {
 func TestResume(t *testing.T) {
 	harness.Run(t, harness.Spec[Case]{
 		Name: "resume", N: 500,
-		Rule: "generated PBF files (1..7 blocks; byte offsets known to the encoder) x skip flags (which create empty blocks) x decoder counts; every stop position is evaluated in one pass (counters read after every Scan) and a second scanner is started at EVERY block offset; an extra early-stopped scanner is closed after a drawn number of objects; oracle = encoder's block offsets and the model's remaining objects; non-trivial = at least two data blocks (has-empty-block counted separately)",
+		Rule: "generated PBF files (1..7 blocks; byte offsets known to the encoder) x skip flags (which create empty blocks) x decoder counts (resumed scanners with 1, 2, 4, 11 or 16 decoders, i.e. also with unbuffered per-decoder queues; half of them call Header() before the first Scan or after the first object); every stop position is evaluated in one pass (counters read after every Scan) and a second scanner is started at EVERY block offset; an extra early-stopped scanner is closed after a drawn number of objects; oracle = encoder's block offsets and the model's remaining objects; non-trivial = at least two data blocks (has-empty-block counted separately)",
 		Gen: func(t *rapid.T) Case {
 			return Case{
 				File:          pbfgen.GenFile(t, pbfgen.Opt{MinBlocks: 1, MaxBlocks: 7}),
 				Procs:         rapid.SampledFrom([]int{1, 2, 3, 5, 16}).Draw(t, "procs"),
-				ResumeProcs:   rapid.SampledFrom([]int{1, 2, 4}).Draw(t, "rprocs"),
+				ResumeProcs:   rapid.SampledFrom([]int{1, 2, 4, 11, 16}).Draw(t, "rprocs"),
+				ResumeHeader:  rapid.SampledFrom([]int{0, 0, 1, 2}).Draw(t, "rheader"),
 				SkipNodes:     rapid.IntRange(0, 2).Draw(t, "sn") == 0,
 				SkipWays:      rapid.IntRange(0, 2).Draw(t, "sw") == 0,
 				SkipRelations: rapid.IntRange(0, 2).Draw(t, "sr") == 0,
@@ -202,6 +251,8 @@ func TestResume(t *testing.T) {
 			m["procs"] = c.Procs
 			m["skip"] = []bool{c.SkipNodes, c.SkipWays, c.SkipRelations}
 			m["stop"] = c.Stop
+			m["resume_procs"] = c.ResumeProcs
+			m["resume_header"] = c.ResumeHeader
 			enc := c.File.Encode()
 			var offs []int
 			for _, f := range enc.Blocks {
